@@ -174,6 +174,19 @@ func (p Proxy) ServeHTTP(w http.ResponseWriter, r *http.Request) (int, error) {
 		return true
 	}
 
+	// Each attempt changes the outgoing request in place (the director
+	// joins the upstream's base path onto the URL, the header rules add,
+	// set and delete fields). When retries are enabled, remember what the
+	// request looked like so that a later attempt starts from the same
+	// request instead of from the leftovers of the previous one.
+	var pristineURL url.URL
+	var pristineHeader http.Header
+	if upstream.GetTryDuration() != 0 {
+		pristineURL = *outreq.URL
+		pristineHeader = outreq.Header.Clone()
+	}
+	attempts := 0
+
 	var backendErr error
 	for {
 		// since Select() should give us "up" hosts, keep retrying
@@ -188,6 +201,12 @@ func (p Proxy) ServeHTTP(w http.ResponseWriter, r *http.Request) (int, error) {
 			}
 			continue
 		}
+		if attempts > 0 && pristineHeader != nil {
+			u := pristineURL
+			outreq.URL = &u
+			outreq.Header = pristineHeader.Clone()
+		}
+		attempts++
 		if rr, ok := w.(*httpserver.ResponseRecorder); ok && rr.Replacer != nil {
 			rr.Replacer.Set("upstream", host.Name)
 		}
